@@ -180,6 +180,9 @@ func (dw *DiskWriter) HandleChange(kind ChangeKind, p string, fi os.FileInfo, er
 		if err := rewriteMetadata(destPath, statCopy); err != nil {
 			return errors.Wrapf(err, "error setting dir metadata for %s", destPath)
 		}
+		// what is written below it later in this transfer moves its time
+		// again: set it once more at the end, like for a created directory
+		dw.dirModTimes[destPath] = statCopy.ModTime
 		// the directory stays in place but its metadata changed: report it
 		return dw.processChange(dw.ctx, kind, p, fi, nil)
 	}
